@@ -369,6 +369,9 @@ def run(ctx) -> None:
     pal = [bytes.fromhex(x) for x in PROGRAM_PALETTE_HEX]
     pal = [p for p in pal if drv.py_decode(p + b"\x00" * 6, CODE)[0] is not None]
     seqs = [[a, b] for a in pal for b in pal]
+    # low-power instructions executed again after the status registers they rewrite were changed by the program
+    lp = [bytes.fromhex(x) for x in ("de", "df", "32ccf8ff", "32ccf800", "32ccfeff", "32ccfe00")]
+    seqs += [[a, b, c] for a in lp[:2] for b in lp[2:] for c in lp[:2]] + [[a, b, c, d] for a in lp[:2] for b in lp[2:4] for c in lp[4:] for d in lp[:2]]
     if ctx.thorough:
         sub = pal[::2]
         seqs += [[a, b, c] for a in sub for b in sub for c in sub]
